@@ -225,6 +225,9 @@ def parse_location_step(tokens: TokenTree) -> LocationStep:  # noqa: C901
     else:
         axis = Axis("child")
 
+    if not all_tokens:
+        raise XPathParsingError(message="Missing location step.")
+
     if not tokens:
         last_token = all_tokens[-1]
         assert isinstance(last_token, Token)
